@@ -223,12 +223,21 @@ func init() {
 	reg("strings.Contains", "r <=> Index(s,sub)>=0 (uninterpreted predicate with len(sub)<=len(s))", func(fr *Frame, in ssa.Instruction, st *State, args []Value, rt types.Type) Value {
 		return Scalar{strContains(fr.p, sTerm(args[0]), sTerm(args[1]))}
 	})
-	reg("strings.TrimSpace", "len(r)<=len(s); r is a substring s[i:j]", func(fr *Frame, in ssa.Instruction, st *State, args []Value, rt types.Type) Value {
+	reg("strings.TrimSpace", "a function of s; r is a substring s[i:j]; r==s when s is empty", func(fr *Frame, in ssa.Instruction, st *State, args []Value, rt types.Type) Value {
 		p := fr.p
 		s := sTerm(args[0])
-		i, j := B.Fresh("trim.i", SBV(64)), B.Fresh("trim.j", SBV(64))
-		p.assume(True(), And(BVSle(BVInt(0, 64), i), BVSle(i, j), BVSle(j, strLen(s))))
-		return Scalar{p.strSub(True(), s, i, j)}
+		B.DeclareFun("gs.trimspace", []string{SStr}, SStr)
+		r := B.App("gs.trimspace", SStr, s)
+		if !p.strSeen[r.id] {
+			p.strSeen[r.id] = true
+			B.DeclareFun("gs.trim.i", []string{SStr}, SBV(64))
+			B.DeclareFun("gs.trim.j", []string{SStr}, SBV(64))
+			i, j := B.App("gs.trim.i", SBV(64), s), B.App("gs.trim.j", SBV(64), s)
+			p.assume(True(), And(BVSle(BVInt(0, 64), i), BVSle(i, j), BVSle(j, strLen(s))))
+			p.assume(True(), Eq(r, p.strSub(True(), s, i, j)))
+			p.assume(True(), And(BVSle(BVInt(0, 64), strLen(r)), BVSle(strLen(r), strLen(s))))
+		}
+		return Scalar{r}
 	})
 	reg("strings.TrimSuffix", "HasSuffix(s,x) ? s[:len(s)-len(x)] : s", func(fr *Frame, in ssa.Instruction, st *State, args []Value, rt types.Type) Value {
 		p := fr.p
